@@ -150,3 +150,48 @@ pub fn mkframes(toks: &[&str]) -> Option<String> {
     drop(boss);
     Some(hex(&wire))
 }
+
+fn pattern(size: usize, i: usize) -> Vec<u8> { (0..size).map(|j| (i.wrapping_mul(31) ^ j.wrapping_mul(7) ^ (j >> 8)) as u8).collect() }
+
+/// `linksz <key hex32> <timeout_ms> <n> <size>*`: an honest link (the two real ends connected directly). The boss end
+/// sends n `CreateOrUpdateFile` commands and the doer end n `FileContent` responses whose payloads have the given
+/// sizes (deterministic bytes). Answer: `toDoer=<delivered intact in order> toBoss=<...> of=<n>`.
+pub fn linksz(toks: &[&str]) -> Option<String> {
+    let mut t = Toks::new(toks);
+    let key = unhex(t.tok()?)?;
+    if key.len() != 16 { return None; }
+    let timeout = std::time::Duration::from_millis(t.nat()? as u64);
+    let n = t.nat()?; let mut sizes = vec![]; for _ in 0..n { sizes.push(t.nat()?); }
+    if !t.done() { return None; }
+    let (boss_end, doer_end) = pair();
+    let key = *GenericArray::from_slice(&key);
+    let boss: AsyncEncryptedComms<Command, Response> = AsyncEncryptedComms::new(boss_end, key, 0, 1, ("boss", "doer"));
+    let doer: AsyncEncryptedComms<Response, Command> = AsyncEncryptedComms::new(doer_end, key, 1, 0, ("doer", "boss"));
+    let start = std::time::Instant::now();
+    let (mut ok_d, mut ok_b) = (0usize, 0usize);
+    let (mut alive_d, mut alive_b) = (true, true);
+    // one message in flight per direction at a time keeps memory small; the timeout covers a link that died
+    for (i, &sz) in sizes.iter().enumerate() {
+        if alive_d { let _ = boss.sender.send(Command::CreateOrUpdateFile { path: rrp("f"), data: pattern(sz, i), set_modified_time: None, more_to_follow: i % 2 == 0 }); }
+        if alive_b { let _ = doer.sender.send(Response::FileContent { data: pattern(sz, i + 1000), more_to_follow: i % 2 == 1 }); }
+        let (mut got_d, mut got_b) = (!alive_d, !alive_b);
+        while !(got_d && got_b) {
+            if !got_d { match doer.receiver.try_recv() {
+                Ok(Command::CreateOrUpdateFile { data, more_to_follow, .. }) => { got_d = true; if data == pattern(sz, i) && more_to_follow == (i % 2 == 0) && ok_d == i { ok_d += 1; } else { alive_d = false; } }
+                Ok(_) => { got_d = true; alive_d = false; }
+                Err(crossbeam::channel::TryRecvError::Disconnected) => { got_d = true; alive_d = false; }
+                Err(_) => {} } }
+            if !got_b { match boss.receiver.try_recv() {
+                Ok(Response::FileContent { data, more_to_follow }) => { got_b = true; if data == pattern(sz, i + 1000) && more_to_follow == (i % 2 == 1) && ok_b == i { ok_b += 1; } else { alive_b = false; } }
+                Ok(_) => { got_b = true; alive_b = false; }
+                Err(crossbeam::channel::TryRecvError::Disconnected) => { got_b = true; alive_b = false; }
+                Err(_) => {} } }
+            if start.elapsed() > timeout { alive_d = false; alive_b = false; break; }
+            if !(got_d && got_b) { std::thread::sleep(std::time::Duration::from_micros(100)); }
+        }
+        if !alive_d && !alive_b { break; }
+    }
+    // (the ends are leaked on purpose if a thread of theirs died: dropping would join it)
+    if ok_d == n && ok_b == n { drop(boss); drop(doer); } else { std::mem::forget(boss); std::mem::forget(doer); }
+    Some(format!("toDoer={} toBoss={} of={}", ok_d, ok_b, n))
+}
